@@ -305,7 +305,7 @@ impl Check for C06Check {
         let method = METHODS[(run as usize) % METHODS.len()];
         let mut ops = Vec::new();
         let mut tag = rng.next() | 1;
-        let sizes = [1usize, 2, 5, 17, 100, 2049];
+        let sizes = [1usize, 2, 5, 17, 100, 2049, 4500];
         ops.push(json!({"op":"append","which":0,"n":*rng.pick(&sizes),"tag":tag}));
         for _ in 0..rng.range(3, 10) {
             tag = tag.wrapping_add(2);
@@ -424,6 +424,8 @@ where
     let mut msrc: Vec<u64> = Vec::new();
     let mut own_version = 1u32;
     let mut dest: EagerVec<V> = EagerVec::import(&db, "dest", Version::new(own_version)).map_err(|e| Fail::Harness(format!("import dest: {e}")))?;
+    // second level: a column computed from the computed column (its input version is dest.version())
+    let mut down: EagerVec<BytesVec<usize, u64>> = EagerVec::import(&db, "down", Version::ONE).map_err(|e| Fail::Harness(format!("import down: {e}")))?;
     let mut src_version = 1u32;
     // version under which the stored results were produced (None = nothing stored yet)
     let mut stored_under: Option<u32> = None;
@@ -503,6 +505,7 @@ where
                 let calls = calls.into_inner();
                 let after: Vec<u64> = dest.collect();
                 let changed = stored_under.is_some_and(|v| v != presented);
+                let stored_before = stored_under;
                 if changed {
                     stats.bump("probe.compute_after_version_change");
                     // everything recomputed from index 0 under the new version, nothing mixed
@@ -550,6 +553,28 @@ where
                     return Err(viol("recorded-version", format!("step {step}: header records computed version {cv}, expected {expect_cv}")));
                 }
                 stats.bump("probe.compute_checked");
+                // second level, continuing where it stopped: must follow every recompute of its input
+                let down_from = down.len();
+                let r2 = catch(|| down.compute_transform(down_from, &dest, |(i, v, _)| (i, mix3(0xD0, i as u64, v)), &exit));
+                match r2 {
+                    Err(p) => return Err(viol("panic", format!("step {step}: second-level compute panicked: {p}"))),
+                    Ok(Err(e)) => return Err(viol("result", format!("step {step}: second-level compute failed: {e}"))),
+                    Ok(Ok(())) => {}
+                }
+                let got: Vec<u64> = down.collect();
+                if got.len() != after.len() {
+                    return Err(viol("second-level-length", format!("step {step}: second-level column has {} elements, its input {}", got.len(), after.len())));
+                }
+                if let Some(i) = (0..got.len()).find(|i| got[*i] != mix3(0xD0, *i as u64, after[*i])) {
+                    return Err(viol(
+                        "second-level-results-of-different-versions-mixed",
+                        format!("step {step}: element {i} of the column computed from the computed column was not recomputed after its input was (input version now {presented}, previously {:?})", if changed { stored_before } else { None }),
+                    ));
+                }
+                stats.bump("probe.second_level_checked");
+                if changed {
+                    stats.bump("probe.second_level_after_input_recompute");
+                }
             }
             "check_recorded_version_survives" => {
                 // after write + re-import, a repeat call with the same versions evaluates nothing
@@ -571,6 +596,7 @@ where
         }
     }
     let _ = &mut own_version;
+    drop(down);
     drop(dest);
     drop(src);
     drop(src2);
@@ -634,7 +660,7 @@ impl Check for C19Check {
         r
     }
     fn rule(&self) -> String {
-        "compute families driven through closures the harness owns (compute_transform, compute_transform2, compute_range, compute_to); the closure records every index it is called with and returns h(version presented, i, source[i]); the source's version is a wrapper the harness controls. Histories interleave source appends, source version bumps, varying starting indices, destination writes, flush + re-import, and the batch knob. Oracle after EVERY compute call: version presented != version the stored results were produced under => the closure ran for every index from 0 and every stored element carries the new version (a surviving old-version value is reported as 'mixed'); version unchanged => no index below min(starting index, stored length) was evaluated, those elements are unchanged, and a repeat call evaluates nothing; header().computed_version() equals own version + presented versions after the call and survives flush + re-import. non-trivial = a compute call followed a version change or a recorded version was checked across a re-import".into()
+        "compute families driven through closures the harness owns (compute_transform, compute_transform2, compute_range, compute_to); the closure records every index it is called with and returns h(version presented, i, source[i]); the source's version is a wrapper the harness controls. Histories interleave source appends, source version bumps, varying starting indices, destination writes, flush + re-import, and the batch knob. Oracle after EVERY compute call: version presented != version the stored results were produced under => the closure ran for every index from 0 and every stored element carries the new version (a surviving old-version value is reported as 'mixed'); version unchanged => no index below min(starting index, stored length) was evaluated, those elements are unchanged, and a repeat call evaluates nothing; header().computed_version() equals own version + presented versions after the call and survives flush + re-import. After every such call a second-level column is computed from the computed column itself (compute_transform with the EagerVec as source, continuing at its own length): it must equal f(i, input[i]) for every i, i.e. it is recomputed from 0 whenever its input was ('second-level-results-of-different-versions-mixed' otherwise). non-trivial = a compute call followed a version change or a recorded version was checked across a re-import".into()
     }
     fn assumptions(&self) -> Vec<String> {
         vec![
@@ -643,6 +669,6 @@ impl Check for C19Check {
         ]
     }
     fn required_probes(&self) -> Vec<&'static str> {
-        vec!["probe.compute_checked", "probe.compute_after_version_change", "probe.compute_with_unchanged_version", "probe.recorded_version_survived_reimport", "probe.source_version_changed", "probe.source_version_lowered"]
+        vec!["probe.compute_checked", "probe.compute_after_version_change", "probe.compute_with_unchanged_version", "probe.recorded_version_survived_reimport", "probe.source_version_changed", "probe.source_version_lowered", "probe.second_level_after_input_recompute"]
     }
 }
